@@ -28,6 +28,9 @@ CHECKS = {
  "C13": dict(level="model_checking", technique="layered symbolic execution of the MIR of gm-sm9 into z3: limbs, Montgomery mod p, Barrett mod N (lemma chain), Booth recoding (bit-vectors), tower formulas over an abstract field, G1/G2 group-law case analysis; ground check of all 2368 table entries",
              text="Fp/Fp2/Fp4/Fp12 add, sub, mul, sqr, neg, double, triple, halve, inverse (every zero-component branch) equal the tower Fp[w]/(w^12+2); mod-N add/sub/mul exact; Booth digits (w=5,7) recompose every scalar; G1 and G2 add/sub/double/neg/equality/affine/on-curve implement the group law in every Jacobian representation; fixed-base table exhaustive.",
              note="as C11; G2 formulas over an abstract Fp2; known finding: TwistPoint::point_equals (see known_findings.json).", design="§2 C13", engine="mirsmt"),
+ "C15": dict(level="model_checking", technique="symbolic execution of the MIR of Exchange::exchange_1..4 over bit-vectors with hash/group/mod-n layers as z3 uninterpreted functions; algebraic agreement as a ring identity",
+             text="R = [r]G for a fresh scalar; x~ = 2^127 + (x mod 2^127); t = d + x~ r; V/U = [t](P_peer + [x~_peer]R_peer); K = KDF(xV||yV||Z_A||Z_B, klen) of the requested length; S_B/S_A use one-byte tags 0x02/0x03 over yV||SM3(xV||Z_A||Z_B||x1||y1||x2||y2); each step fails exactly when the peer's R is invalid, the shared point is infinity, or the confirmation value differs in any byte; both sides compute the same point.",
+             note="layers uninterpreted; klen values listed in evidence; tamper detection modulo SM3 collision resistance; Annex example only in the replay reference.", design="§2 C15", engine="mirsmt"),
  "C16": dict(level="model_checking", technique="symbolic execution of the MIR (integer domain, fresh quotient/remainder encoding, lemma chains) for hash-to-range and mod-N arithmetic; Kani bounded model checking for H1/H2 framing and extraction data-flow",
              text="mod_n_from_hash(Ha) = (Ha mod (N-1))+1 in [1,N-1] for ALL 320-bit Ha; mod_n_add/sub and Barrett mod_n_mul exact for all canonical operands; H1/H2 hash exactly prefix||Z||ct with ct=1,2 and pass the first 40 bytes on; extraction computes [k*(H1(ID||hid)+k)^-1]P with hid 01/03/02 on P1/P2/P2 and fails exactly when H1+k = 0.",
              note="u256/u320 limb arithmetic proved exact once (L1) and used as integer statements; SM3 and the group layer are arbitrary functions in the Kani harnesses; Annex values only in the replay reference.", design="§2 C16", engine="mirsmt+kani"),
